@@ -5,8 +5,12 @@ package main
 
 import (
 	"bufio"
+	"bytes"
 	"fmt"
 	"io"
+	"log"
+	"log/slog"
+	"regexp"
 	"net/http"
 	"net/url"
 	"os"
@@ -33,6 +37,8 @@ type wrap struct {
 }
 
 type panicVal struct{ id int }
+
+func (p panicVal) String() string { return "v" + strconv.Itoa(p.id) }
 
 type act struct {
 	kind string // s a d w b
@@ -83,6 +89,7 @@ type facadeSt struct {
 }
 
 type obs struct {
+	raised    bool // a user-supplied function of the harness raised a panic during this request
 	called    bool
 	callLine  string
 	recovered bool
@@ -100,6 +107,8 @@ type executor struct {
 	pHandlers, pMws, pBases map[int]int
 	cur     *obs
 	curRec  *rec
+	// sinks of the bundled recovery options (WithWriteRecovery / WithLogRecovery / WithSLogRecovery)
+	recW, recL, recG bytes.Buffer
 }
 
 func newExecutor() *executor {
@@ -221,6 +230,7 @@ func (x *executor) call(w http.ResponseWriter, r *http.Request, route types.Rout
 	// request time: middlewares outermost first, then the handler itself
 	for i := len(wraps) - 1; i >= 0; i-- {
 		if v, ok := x.pMws[wraps[i].mw]; ok {
+			o.raised = true
 			panic(panicVal{v})
 		}
 	}
@@ -231,12 +241,14 @@ func (x *executor) call(w http.ResponseWriter, r *http.Request, route types.Rout
 	}
 	if strings.HasPrefix(base, "user:") {
 		if v, ok := x.pHandlers[h.hid]; ok {
+			o.raised = true
 			panic(panicVal{v})
 		}
 		runScript(w, x.scripts[h.hid])
 		return
 	}
 	if v, ok := x.pBases[baseCode[base]]; ok {
+		o.raised = true
 		panic(panicVal{v})
 	}
 	switch base {
@@ -357,8 +369,21 @@ func (x *executor) routerOpts(trace, lock, recover, domain, icpt, corsFlag, orig
 	if lock == "1" {
 		o = append(o, mux.WithLock(true))
 	}
-	if recover == "1" {
+	switch {
+	case recover == "1":
 		o = append(o, mux.WithRecovery(x.recoverFunc))
+	case len(recover) > 1: // a bundled option: s<status> | w<status> | l<status> | g<status>
+		code, _ := strconv.Atoi(recover[1:])
+		switch recover[0] {
+		case 's':
+			o = append(o, mux.WithStatusRecovery(code))
+		case 'w':
+			o = append(o, mux.WithWriteRecovery(code, &x.recW))
+		case 'l':
+			o = append(o, mux.WithLogRecovery(code, log.New(&x.recL, "REC|", 0)))
+		case 'g':
+			o = append(o, mux.WithSLogRecovery(code, slog.New(slog.NewTextHandler(&x.recG, nil))))
+		}
 	}
 	if d := decB(domain); d != "" {
 		o = append(o, mux.WithURLDomain(d))
@@ -419,11 +444,53 @@ func (x *executor) serve(h http.Handler, req *http.Request) (out string) {
 			out = prefix() + "panicked:" + fmtPanicVal(v)
 		}
 	}()
+	x.recW.Reset()
+	x.recL.Reset()
+	x.recG.Reset()
 	h.ServeHTTP(r, req)
 	if o.recovered {
 		return prefix() + "recovered:" + fmtPanicVal(o.recVal) + " " + fmtRec(r)
 	}
+	// bundled recovery options: the value is what they logged; WithStatusRecovery logs nothing ("?")
+	if val, times, ok := x.loggedPanic(); ok {
+		if times != 1 {
+			val += "x" + strconv.Itoa(times)
+		}
+		return prefix() + "recovered:" + val + " " + fmtRec(r)
+	}
+	if o.raised {
+		return prefix() + "recovered:? " + fmtRec(r)
+	}
 	return prefix() + "normal " + fmtRec(r)
+}
+
+var loggedVal = regexp.MustCompile(`v[0-9]+|runtime error`)
+
+// loggedPanic reads the sinks of the bundled recovery options: the value logged first and how many records there are.
+func (x *executor) loggedPanic() (val string, times int, ok bool) {
+	var text string
+	switch {
+	case x.recW.Len() > 0:
+		text = x.recW.String()
+		first := strings.SplitN(text, "\n", 2)[0]
+		times = strings.Count("\n"+text, "\n"+first+"\n")
+	case x.recL.Len() > 0:
+		text = x.recL.String()
+		times = strings.Count(text, "REC|")
+	case x.recG.Len() > 0:
+		text = x.recG.String()
+		times = strings.Count(text, "level=ERROR")
+	default:
+		return "", 0, false
+	}
+	val = loggedVal.FindString(text)
+	if val == "runtime error" {
+		val = "fault"
+	}
+	if val == "" {
+		val = "unknown"
+	}
+	return val, times, true
 }
 
 func decActs(tok string) []act {
